@@ -404,6 +404,13 @@ def run(ctx: Any, prog: Program) -> None:
     for fnd in inner:
         appends = [c for c in ast.walk(fnd) if isinstance(c, ast.Call) and isinstance(c.func, ast.Attribute) and c.func.attr == 'append' and dotted(c.func.value) == lst_p]
         new_idx = [a for a in ast.walk(fnd) if isinstance(a, ast.Assign) and any(isinstance(t, ast.Subscript) for t in a.targets) and any(isinstance(t, ast.Name) for t in a.targets)]
+        if not new_idx:
+            # the chained assignment written as two: `new_ind = len(lst)` / `table[key] = new_ind`
+            stores_ = [a for a in ast.walk(fnd) if isinstance(a, ast.Assign) and len(a.targets) == 1 and isinstance(a.targets[0], ast.Subscript) and isinstance(a.value, ast.Name)]
+            for st_ in stores_:
+                defs_ = [a for a in ast.walk(fnd) if isinstance(a, ast.Assign) and len(a.targets) == 1 and isinstance(a.targets[0], ast.Name) and a.targets[0].id == st_.value.id]
+                if len(defs_) == 1:
+                    new_idx.append(defs_[0])
         if len(appends) != 1 or len(new_idx) != 1:
             ctx.shape('C11.L25', False, bf, fnd, f'finder: {len(appends)} appends to the list and {len(new_idx)} index assignments (1 and 1 expected)', func='find_or_insert', text='new index = len(list)')
             continue
